@@ -2,6 +2,7 @@ package checks
 
 import (
 	"bytes"
+	"crypto/sha256"
 	"encoding/json"
 	"fmt"
 	"io"
@@ -271,15 +272,17 @@ func (b *c04Built) openReaders(mode string) ([]io.ReadSeeker, error) {
 	}
 }
 
-// stateKey is the canonical state after a history.
+// c04Key is the canonical state after a history: the complete private state of
+// every reader (reflection fingerprint: offsets, inner readers and whatever
+// else the implementation remembers) — an exact key, no abstraction.
 func c04Key(rs []io.ReadSeeker, ms []*rsModel) (string, string) {
 	key := ""
 	for i, r := range rs {
-		off, has, ok := file.VerifReaderState(r)
+		off, _, ok := file.VerifReaderState(r)
 		if ok && off != ms[i].off {
 			return "", fmt.Sprintf("reader %d: internal offset %d, model offset %d", i, off, ms[i].off)
 		}
-		key += fmt.Sprintf("[%d %v %d]", ms[i].off, has, ms[i].created)
+		key += fmt.Sprintf("[%d|%s]", ms[i].off, fingerprint(r))
 	}
 	return key, ""
 }
@@ -315,6 +318,35 @@ func c04RunOn(b *c04Built, mode string, hist []rsop) (string, string) {
 	return key, ""
 }
 
+// c04Offsets replays a (violation-free) history on the model only.
+func c04Offsets(L int, hist []rsop, readers int) []int64 {
+	offs := make([]int64, readers)
+	for _, op := range hist {
+		o := &offs[op.R]
+		if op.Kind == "read" {
+			n := op.A
+			if *o >= int64(L) {
+				n = 0
+			} else if *o+n > int64(L) {
+				n = int64(L) - *o
+			}
+			*o += n
+			continue
+		}
+		var base int64
+		switch op.Whence {
+		case io.SeekCurrent:
+			base = *o
+		case io.SeekEnd:
+			base = int64(L)
+		}
+		if base+op.A >= 0 {
+			*o = base + op.A
+		}
+	}
+	return offs
+}
+
 func sigOf(msg string) string {
 	for i := 0; i < len(msg); i++ {
 		if msg[i] == ':' {
@@ -343,10 +375,31 @@ func c04BFS(r *core.Run, f c04File, mode string) {
 		r.Violate(sigOf(msg)+" "+mode, f.Label+": "+msg, c04Replay{f.Label, mode, nil})
 		return
 	}
-	seen := map[string]bool{k0: true}
+	hk := func(k string) [16]byte {
+		h := sha256.Sum256([]byte(k))
+		var o [16]byte
+		copy(o[:], h[:16])
+		return o
+	}
+	seen := map[[16]byte]bool{hk(k0): true}
 	frontier := [][]rsop{nil}
 	states, maxDepth := 1, 0
+	maxStates := 40000
+	if !r.Quick() {
+		maxStates = 400000
+	}
+	violations := 0
 	for len(frontier) > 0 {
+		if states >= maxStates {
+			r.Cap(fmt.Sprintf("state cap %d reached for %s/%s (frontier %d)", maxStates, f.Label, mode, len(frontier)))
+			break
+		}
+		if violations >= 40 {
+			// a broken reader makes further exploration pointless (and its extra
+			// private state can blow up the search)
+			r.Cap(fmt.Sprintf("search for %s/%s stopped after %d violations", f.Label, mode, violations))
+			break
+		}
 		h := frontier[0]
 		frontier = frontier[1:]
 		for _, op := range alpha {
@@ -354,18 +407,22 @@ func c04BFS(r *core.Run, f c04File, mode string) {
 			key, msg := c04RunOn(b, mode, nh)
 			r.Transitions.Add(1)
 			if msg != "" {
+				violations++
 				r.Violate(sigOf(msg)+" "+mode+" "+readerKind(f), fmt.Sprintf("%s history %v: %s", f.Label, nh, msg), c04Replay{f.Label, mode, nh})
 				continue
 			}
-			if seen[key] {
+			if seen[hk(key)] {
 				continue
 			}
-			seen[key] = true
+			seen[hk(key)] = true
 			// confine offsets to the finite closure
-			var o1, o2, c1, c2 int64
-			var h1, h2 bool
-			fmt.Sscanf(key, "[%d %t %d][%d %t %d]", &o1, &h1, &c1, &o2, &h2, &c2)
-			if o1 < lo || o1 > hi || o2 < lo || o2 > hi {
+			out := false
+			for _, o := range c04Offsets(L, nh, nr) {
+				if o < lo || o > hi {
+					out = true
+				}
+			}
+			if out {
 				r.Add("offset_boundary_pruned", 1)
 				continue
 			}
@@ -425,8 +482,8 @@ func c04Flat(r *core.Run, f c04File, depth int) {
 }
 
 func runC04(r *core.Run) {
-	r.Rule("explicit-state BFS per file and reader configuration: state = (offset, has inner reader, creation offset) per reader (offset and inner-reader flag read from the implementation through a verif-tagged hook and cross-checked with the model), alphabet = Read(k)/Seek(o,Start|Current|End) with boundary arguments, successor = fresh reader + replay of the shortest history + 1 op, search runs until no new state within offsets [-(L+1),2L+2]; configurations: one reader, two readers of one node, two readers of two nodes (full product); plus every history up to depth 3 without deduplication; oracle = io.ReadSeeker model over the content bytes")
-	r.Assume("canonicalisation: the inner MultiReader is a deterministic function of (creation offset, bytes consumed since); the key is over-fine at worst; validated by the un-deduplicated depth-3 run")
+	r.Rule("explicit-state BFS per file and reader configuration: state = the complete private state of every reader (reflection fingerprint over unexported fields: offsets, inner MultiReader and its remaining child readers, any cache the implementation keeps; offset cross-checked with the model through a verif-tagged hook), alphabet = Read(k)/Seek(o,Start|Current|End) with boundary arguments, successor = fresh reader + replay of the shortest history + 1 op, search runs until no new state within offsets [-(L+1),2L+2]; configurations: one reader, two readers of one node, two readers of two nodes (full product); plus every history up to depth 3 without deduplication; oracle = io.ReadSeeker model over the content bytes")
+	r.Assume("the state key is the full private state reachable from the reader (module-defined types, io/sync containers); substrate nodes and the link system are immutable and opaque; cross-checked by the un-deduplicated depth-3 run")
 	files := c04Files(r.Quick())
 	type job struct {
 		f    c04File
